@@ -312,7 +312,7 @@ def model_checking(thorough):
     """MC runs of the specification (run beside the trace validation); returns
     [(name, result, must_hold, expected violation)]"""
     out = []
-    w = 16 if thorough else 6
+    w = 8 if thorough else 6
     out.append(("MC_Phase_" + ("full" if thorough else "quick"),
                 tlc.run("MC_Phase", "MC_Phase_full.cfg" if thorough else "MC_Phase_quick.cfg", workers=w, timeout=3000),
                 True, None))
@@ -349,15 +349,12 @@ def run(chk):
     rnd = random.Random(chk.seed)
     thorough = chk.tier == "thorough"
     with cf.ThreadPoolExecutor(max_workers=1) as ex:
-        # 1. model checking of the specification (in the background)
-        mc = ex.submit(model_checking, thorough) if not thorough else None
-        if thorough:
-            file_mc(chk, model_checking(True))
+        # 1. model checking of the specification (beside the trace validation)
+        mc = ex.submit(model_checking, thorough)
         # 2. trace validation of the real class
         rcs = recipes(rnd, 16 if thorough else 1)
-        events, rejected = pd.validate(chk, rcs, "C07", procs=None if thorough else 8)
-        if mc is not None:
-            file_mc(chk, mc.result())
+        events, rejected = pd.validate(chk, rcs, "C07", procs=8)
+        file_mc(chk, mc.result())
     for ev in events[:200:40]:
         chk.sample({k: v for k, v in ev.items() if k in ("ev", "op", "ord", "other", "fn")} | {"desc": pd.describe(ev, [])})
     chk.notes["recipes"] = len(rcs)
